@@ -319,21 +319,16 @@ Qed.
 
 Lemma edges_ok_b_sound nv faces edges :
   wf_faces nv faces -> edges_ok_b faces edges = true ->
-  NoDup edges /\ Forall (edge_valid nv) edges /\ edges_exact faces edges.
+  Forall (edge_valid nv) edges /\ edges_exact faces edges.
 Proof.
   intros Hw H. pose proof Hw as (Hf & Ho). unfold edges_ok_b in H.
-  apply andb_true_iff in H as [H H4]. apply andb_true_iff in H as [H H3]. apply andb_true_iff in H as [H1 H2].
+  apply andb_true_iff in H as [H H4]. apply andb_true_iff in H as [H2 H3].
   rewrite forallb_forall in H2, H3, H4.
   assert (Hsrc : forall e, In e edges -> exists x, In x (all_corners faces) /\ keyify2 (cv x) (ct x) = e).
   { intros e He. specialize (H3 e He). apply existsb_exists in H3 as (x & Hx & E). apply pair_eqb'_true in E. eauto. }
   assert (Hdst : forall x, In x (all_corners faces) -> In (keyify2 (cv x) (ct x)) edges).
   { intros x Hx. specialize (H4 x Hx). apply existsb_exists in H4 as (e & He & E). apply pair_eqb'_true in E. congruence. }
-  split; [|split].
-  - clear -H1. induction edges as [|e t IH]; [constructor|]. cbn in H1. apply andb_true_iff in H1 as [A B].
-    constructor; [|apply IH, B]. intros Hin. apply negb_true_iff in A.
-    assert (existsb (pair_eqb' e) t = true).
-    { apply existsb_exists. exists e. split; [exact Hin|]. unfold pair_eqb'. rewrite !Z.eqb_refl. reflexivity. }
-    congruence.
+  split.
   - rewrite Forall_forall. intros e He. destruct (Hsrc e He) as (x & Hx & E). specialize (H2 e He).
     pose proof (AC_vertex_range nv faces Hf x Hx) as R1.
     destruct (next_sibling faces x Hx) as (y & Hy & _ & _ & _ & _ & Ey).
